@@ -34,7 +34,14 @@ def blitter_impls(ctx, R):
 
 def blit_span_sites(ctx, b):
     """calls of <dyn Blitter>::blit_span in composite: [(bb, call term)]"""
-    return [(bi, ct) for bi, d, ct in calls_in(ctx, b) if d == BLITTER_TRAIT + '::blit_span']
+    out = []
+    an = ctx.an(b)
+    for bi, d, ct in calls_in(ctx, b):
+        if d == BLITTER_TRAIT + '::blit_span':
+            vs = shared.call_variants(an, bi, ct, args=[4])
+            # a variant is judged where its alternative is chosen (its guards are those of that block)
+            out.extend(vs)
+    return out
 
 
 def rect_fields(t):
@@ -264,40 +271,67 @@ def zip_operands(t):
     return [t]
 
 
-def row_elem_canon(ctx, b, an):
-    """One view of the per-pixel accesses of a row proc for both spellings of the loop: a function that rewrites a term
-    so that the current element of slice parameter k reads ('elem', k) --
-      zip form:   *<path of the Some payload of next(zip(..))>, the path decoded against the zip tree;
-      index form: p[i] with i exactly the variable of a range/counter loop (that the loop is bounded by the shortest
-                  slice is R02.5's and the census's obligation, not this function's)."""
+def elem_canon(ctx, b, an, keyfn):
+    """One view of element-wise loops over several slices for both spellings: a function that rewrites a term so that
+    the current element of the slice whose container term has key k (keyfn(container) -> k or None) reads ('elem', k) --
+      zip form:   *<path of the Some payload of next(zip(..))>, the path decoded against the zip tree; a leaf of the tree
+                  is iter()/iter_mut()/into_iter() of the container or of a sub-slice container[a..b] of it;
+      index form: c[i] with i exactly the variable of a range/counter loop.
+    canon.positions: the distinct index terms met (index form); canon.ranges: {k: [range aggregates sliced with]}."""
     zips = {}
+    ranges = {}
+
+    def container(t):
+        t = strip_all(t)
+        while t[0] in ('deref', 'ref'):
+            t = strip_all(t[1])
+        rng = None
+        if is_call(t, 'Index::index', 'IndexMut::index_mut') and len(t[2]) == 2 and t[2][1][0] == 'agg' and 'ops::Range' in (t[2][1][2] or ''):
+            rng = t[2][1]
+            t = strip_all(t[2][0])
+            while t[0] in ('deref', 'ref'):
+                t = strip_all(t[1])
+        return t, rng
 
     def zip_tree(t):
         t = strip_all(t)
+        while t[0] in ('deref', 'ref'):
+            t = strip_all(t[1])
         if is_call(t, 'IntoIterator::into_iter') and len(t[2]) == 1:
             return zip_tree(t[2][0])
         if is_call(t, 'Iterator::zip') and len(t[2]) == 2:
             return ('zip', zip_tree(t[2][0]), zip_tree(t[2][1]))
+        if is_call(t, 'Iterator::filter') and len(t[2]) == 2:
+            # the elements that get through are elements of the inner iterator; the predicate holds for each of them
+            filters.append(t[2][1])
+            return zip_tree(t[2][0])
         if is_call(t, 'iter_mut', '::iter') and len(t[2]) == 1:
             t = strip_all(t[2][0])
-        while t[0] in ('deref', 'ref'):
-            t = strip_all(t[1])
-        return ('leaf', t[1] if t[0] == 'param' else None)
+        c, rng = container(t)
+        k = keyfn(c)
+        if k is not None and rng is not None:
+            ranges.setdefault(k, []).append(rng)
+        return ('leaf', k)
 
     def tree_of(nxt):
         k0 = nosite(nxt)
         if k0 not in zips:
-            D = Deps(an)
-            D.closure(nxt[2][0])
-            zs = [x for x in D.visited if is_call(x, 'IntoIterator::into_iter')]
-            zips[k0] = zip_tree(zs[-1]) if zs else None
+            it = strip_all(nxt[2][0])
+            while it[0] in ('deref', 'ref'):
+                it = strip_all(it[1])
+            src = None
+            if it[0] in ('mem', 'phi'):
+                ds = [d for d in an.defs_of.get(it[1], []) if not d.partial and d.kind in ('assign', 'call') and not is_call(an.def_term(d) if d.kind == 'assign' else an.call_term(d.bb), 'Iterator::next')]
+                vals = [an.def_term(d) if d.kind == 'assign' else an.call_term(d.bb) for d in ds]
+                if len(vals) == 1:
+                    src = vals[0]
+            if src is None:
+                D = Deps(an)
+                D.closure(nxt[2][0])
+                zs = [x for x in D.visited if is_call(x, 'IntoIterator::into_iter')]
+                src = zs[-1] if zs else None
+            zips[k0] = zip_tree(src) if src is not None else None
         return zips[k0]
-
-    def param_of(base):
-        base = strip_all(base)
-        while base[0] in ('deref', 'ref'):
-            base = strip_all(base[1])
-        return base[1] if base[0] == 'param' else None
 
     def f(t):
         if t[0] == 'deref':
@@ -316,15 +350,59 @@ def row_elem_canon(ctx, b, an):
                 if tr is not None and tr[0] == 'leaf' and tr[1] is not None:
                     return ('elem', tr[1])
         if t[0] == 'index':
-            k2 = param_of(t[1])
-            if k2 is not None and shared.index_loop_bounds(ctx, b, an, t[2]):
+            c, rng = container(t[1])
+            k2 = keyfn(c)
+            if k2 is not None and rng is None and shared.index_loop_bounds(ctx, b, an, t[2]):
                 positions.add(nosite(strip_casts(t[2], ('IntToInt',))))
                 return ('elem', k2)
         return None
     positions = set()
+    filters = []
     canon = lambda t: trewrite(t, f)
-    canon.positions = positions       # the distinct index terms met so far (index form): one pixel position <=> at most one
+    canon.positions = positions
+    canon.ranges = ranges
+
+    def filter_facts(nxt):
+        """comparison facts (op, A, B) that hold for every element yielded by next() because of .filter(pred) adaptors:
+        pred(&item) beta-reduced, for predicates that are a single comparison"""
+        tree_of(nxt)
+        item = ('field', nxt, '0', 'std::option::Option', 'Some')
+        out = []
+        for clo in filters:
+            c = strip_all(clo)
+            if c[0] == 'mem':
+                c = shared.resolve_mem(an, c)
+            red = an._beta(('call', 'std::ops::FnMut::call_mut', (c, ('agg', 'tuple', None, None, (('0', ('ref', item)),))), 0))
+            if red is None:
+                continue
+            neg = False
+            while red[0] == 'un' and red[1] == 'Not':
+                red, neg = red[2], not neg
+            if red[0] == 'bin' and red[1] in CMP_NEG:
+                out.append((CMP_NEG[red[1]] if neg else red[1], red[2], red[3]))
+        return out
+    canon.filter_facts = filter_facts
+
+    def leaves(nxt):
+        """keys of the zipped containers of the iterator next() is called on, left to right (None for an unrecognised leaf)"""
+        out = []
+        def walk(tr):
+            if tr is None:
+                out.append(None)
+            elif tr[0] == 'zip':
+                walk(tr[1])
+                walk(tr[2])
+            else:
+                out.append(tr[1])
+        walk(tree_of(nxt))
+        return out
+    canon.leaves = leaves
     return canon
+
+
+def row_elem_canon(ctx, b, an):
+    """elem_canon for a row proc: the containers are the slice parameters, keyed by their MIR parameter number"""
+    return elem_canon(ctx, b, an, lambda c: c[1] if c[0] == 'param' else None)
 
 
 def r02_5(ctx):
@@ -340,6 +418,7 @@ def r02_5(ctx):
         # stores
         st = [(a, v, pt) for a, v, pt, kind in an.stores if kind == 'assign']
         ok = len(st) >= 1
+        canon = row_elem_canon(ctx, b, an)
         zipped = None
         indexed = 0
         for addr, val, pt in st:
@@ -366,34 +445,19 @@ def r02_5(ctx):
             root = addr
             while root[0] in ('deref', 'field', 'ref'):
                 root = root[1]
-            if not is_call(root, 'Iterator::next'):
+            if not is_call(root, 'Iterator::next') or canon(strip_all(addr)) != ('elem', dst_p):
                 ok = False
                 continue
-            D = Deps(an)
-            D.closure(root[2][0])
-            zs = [x for x in D.visited if is_call(x, 'IntoIterator::into_iter')]
-            ops = []
-            for z in zs:
-                ops = zip_operands(z)
-            zipped = ops
+            zipped = canon.leaves(root)
         if ok and zipped is None and indexed == len(st) and indexed:
             ctx.ok(R, key + '|store via zip', b.loc(), 'dst[i] written for i in 0..min(len of every slice)')
             n += 1
             continue
         if not ctx.check(ok and zipped is not None, R, key + '|store via zip', b.loc(), 'dst written only through the zipped iterator', 'dst is written other than through the zipped iterator (e.g. by index): the write is not bounded by the shortest slice'):
             continue
-        first = zipped[0] if zipped else None
-        ok_first = first is not None and is_call(first, 'iter_mut') and strip_all(first[2][0]) in (('param', dst_p), ('deref', ('param', dst_p)))
-        others = set()
-        for z in zipped[1:]:
-            z = strip_all(z)
-            if z[0] == 'param':
-                others.add(z[1])
-            elif is_call(z, '::iter') and strip_all(z[2][0])[0] == 'param':
-                others.add(strip_all(z[2][0])[1])
-        want = set(range(1, nparams)) - {dst_p}
-        ctx.check(ok_first and others == want, R, key + '|zip of all slices', b.loc(), 'zip(dst.iter_mut(), all %d other slices)' % len(want),
-                  'the write loop zips %s; every slice parameter must take part so that the shortest one bounds the write' % [fmt(b, z) for z in zipped])
+        want = set(range(1, nparams + 1))
+        ctx.check(None not in zipped and set(zipped) == want and len(zipped) == len(want), R, key + '|zip of all slices', b.loc(), 'zip of dst.iter_mut() and all %d other slices' % (len(want) - 1),
+                  'the write loop zips the slices of parameters %s; every slice parameter must take part, once, so that the shortest one bounds the write' % zipped)
         n += 1
     ctx.floor(R, 'row procs', n, 3)
 
@@ -605,7 +669,13 @@ def r02_7(ctx):
             # coverage reads: the current elements of the u8 slices (every parameter but src and dst)
             cval = canon(val)
             covs = set(x for x in subterms(cval) if x[0] == 'elem' and x not in (dst_e, src_e))
-            gs = normalized_guards(ctx, b, pt[0])
+            gs = list(normalized_guards(ctx, b, pt[0]))
+            # elements that an .filter(pred) adaptor lets through satisfy pred
+            root = addr
+            while root[0] in ('deref', 'field', 'ref'):
+                root = root[1]
+            if is_call(root, 'Iterator::next'):
+                gs += [(op, a, b2, None) for op, a, b2 in canon.filter_facts(root)]
             guarded = set()
             for op, a, b2, si in gs:
                 if op in ('Ne', 'Gt') and const_val(b2) == 0:
@@ -1068,7 +1138,24 @@ def r05_2(ctx):
     lv = D.closure(mask) if mask else set()
     has_raster = any(is_call(x, 'Rasterizer::rasterize') for x in D.visited) if mask else False
     ctx.check(has_raster, R, key + '|mask from path', call_line(b, bi), 'mask derives from rasterising the path', 'the pushed mask does not derive from Rasterizer::rasterize')
-    ctx.check(top_clip_field(D.visited, 'mask') and any(is_call(x, 'sw_composite::muldiv255') for x in D.visited), R, key + '|mask combined', call_line(b, bi),
+    # the same combination written element-wise over zipped (sub)slices: new[k] = muldiv255(new[k], prev[k])
+    def keyfn(c):
+        r0, nm0 = field_path(c)
+        if nm0[-1:] == ['buf'] and r0[0] in ('mem', 'phi') and 'MaskSuperBlitter' in (b.locals[r0[1]].get('ty') or ''):
+            return 'new'
+        if top_clip_field([x for x in subterms(c)], 'mask'):
+            return 'prev'
+        return None
+    canon = elem_canon(ctx, b, an, keyfn)
+    zipped_combine = False
+    for a0, v0, pt0, kind0 in an.stores:
+        if kind0 != 'assign' or canon(strip_all(a0)) != ('elem', 'new'):
+            continue
+        cv = canon(v0)
+        for x in subterms(cv):
+            if is_call(x, 'sw_composite::muldiv255') and {('elem', 'new'), ('elem', 'prev')} <= set(y for a1 in x[2] for y in subterms(a1)):
+                zipped_combine = True
+    ctx.check(zipped_combine or (top_clip_field(D.visited, 'mask') and any(is_call(x, 'sw_composite::muldiv255') for x in D.visited)), R, key + '|mask combined', call_line(b, bi),
               'mask is multiplied with the previous top\'s mask', 'the pushed mask is not combined (muldiv255) with the mask of the clip underneath: nested path clips are not intersected')
     # the combining loop covers width*height entries
     W, H = Poly.leaf(('field', ('deref', ('param', 1)), 'width', 'raqote::draw_target::DrawTarget', None)), Poly.leaf(('field', ('deref', ('param', 1)), 'height', 'raqote::draw_target::DrawTarget', None))
@@ -1078,6 +1165,12 @@ def r05_2(ctx):
             f2 = dict(x[4])
             if const_val(f2['start']) == 0 and poly(f2['end']) == W * H:
                 okl = True
+    if not okl and zipped_combine and canon.ranges.get('new') and canon.ranges.get('prev'):
+        # both operands are sliced to [..width*height] (or [0..width*height]) before being zipped
+        def full(rg):
+            f3 = dict(rg[4])
+            return 'end' in f3 and poly(f3['end']) == W * H and ('start' not in f3 or const_val(f3['start']) == 0)
+        okl = all(full(rg) for k3 in ('new', 'prev') for rg in canon.ranges[k3])
     ctx.check(okl, R, key + '|combine loop bound', b.loc(), 'combine loop runs over 0..width*height', 'the mask-combining loop does not run over 0..width*height')
     # R05.5 writer side: full-surface, origin 0 blitter
     news = [ct2 for bi2, d, ct2 in calls_in(ctx, b) if d == 'raqote::blitter::MaskSuperBlitter::new']
